@@ -3,6 +3,7 @@
 From Coq Require Import List NArith ZArith Bool Arith.
 From RecordUpdate Require Import RecordUpdate.
 From JV Require Import Bytes Msg SrvModel SrvLemmas SrvBasics SrvC07 SrvC01.
+From JV Require SrvNoCrash.
 Import ListNotations.
 
 (* 1. tasks.responses: one element per call, in request order, with the call's id and body; an id-less member
@@ -126,10 +127,10 @@ Theorem c01_silent_unit_step : forall c s u un l s' os un',
 Proof. exact SrvC01.c01_silent_unit_step. Qed.
 Print Assumptions c01_silent_unit_step.
 
-(* 6. at a quiescent point of a run that has not crashed, every released message whose handlers have all
+(* 6. at a quiescent point (no reachable state has crashed: C08), every released message whose handlers have all
       returned has been answered: a running unit still has an unfinished task, and none waits at deliver. *)
-Theorem c01_quiescent_complete : forall c s, reach c s -> crash s = None -> quiescent s = true ->
+Theorem c01_quiescent_complete : forall c s, reach c s -> quiescent s = true ->
   (forall u un, nth_error (units s) u = Some un -> u_st un = URunning -> all_finished s u = false) /\
   (forall u un, nth_error (units s) u = Some un -> u_st un <> UAtDeliver).
-Proof. exact SrvC01.c01_quiescent_complete. Qed.
+Proof. exact SrvNoCrash.c01_quiescent_complete_nc. Qed.
 Print Assumptions c01_quiescent_complete.
